@@ -97,8 +97,8 @@ def coq_authn(row):
 
 
 def coq_contact(row):
-    return '(%s, %s, %s, %s)' % (coq_opt(row['require_tls'], coq_bool, 'bool'), coq_bool(row['tls_enable']),
-                                 coq_bool(row['peer_can']), coq_bool(row['hs_ok']))
+    return '%s, %s, %s, %s' % (coq_opt(row['require_tls'], coq_bool, 'bool'), coq_bool(row['tls_enable']),
+                               coq_bool(row['peer_can']), coq_bool(row['hs_ok']))
 
 
 PRELUDE = '''
@@ -108,11 +108,10 @@ Definition run_authn (c : bool * N * N * N * list N * list N * list N * bool * b
   (authn_refuses p nm ad nd ips dnss uris rh rn,
    (let '(a, (b, d)) := authn_results p nm ad nd ips dnss uris in [mres_code a; mres_code b; mres_code d],
     policy_okb ad (known_dns_name p nm ad) nd ips dnss uris rh rn)).
-Definition run_contact (c : option bool * bool * bool * bool) :=
-  let '(req, tc, pc, ok) := c in
-  let o := contact_outcome req (tls_attempt tc pc) ok in
-  (tls_attempt tc pc, (outcome_code o,
-    match o with Closed => true | Proceed s => tls_use_okb req tc pc s end)).
+Definition run_contact (c : option bool * bool * bool * bool * bool * bool) :=
+  let '(req, tc, pc, ok, obs_went_on, obs_secured) := c in
+  (tls_attempt tc pc, (outcome_code (contact_outcome req (tls_attempt tc pc) ok),
+    (if obs_went_on then tls_use_okb req tc pc obs_secured else true))).
 Definition run_match (c : option N * list N) := mres_code (match_id (fst c) (snd c)).
 '''
 
@@ -225,12 +224,17 @@ def oracle_contact(row, obs):
             out.append(('contact/sessinit-on-both-channels/' + tag, 'SESS_INIT both in the clear and under TLS'))
         if obs['sessinit_clear'] and both:
             out.append(('contact/clear-sessinit-although-both-offer/' + tag, 'SESS_INIT sent in the clear although both sides offer TLS'))
-        if secured != both:
-            out.append(('contact/tls-use-differs-from-offers/' + tag, 'proceeded with secure=%s but both-offer=%s' % (secured, both)))
-        if req is True and (obs['sessinit_clear'] or not secured):
-            out.append(('contact/require-tls-proceeds-clear/' + tag, 'require_tls=True but proceeded in the clear'))
-        if req is False and (obs['sessinit_tls'] or secured):
-            out.append(('contact/forbid-tls-proceeds-secured/' + tag, 'require_tls=False but proceeded secured'))
+        if not py_tls_use_ok(req, local_offer, row['peer_can'], secured):
+            if secured != both:
+                out.append(('contact/tls-use-differs-from-offers/' + tag, 'proceeded with secure=%s but both-offer=%s' % (secured, both)))
+            elif req is True:
+                out.append(('contact/require-tls-proceeds-clear/' + tag, 'require_tls=True but proceeded in the clear'))
+            else:
+                out.append(('contact/forbid-tls-proceeds-secured/' + tag, 'require_tls=False but proceeded secured'))
+        if req is True and obs['sessinit_clear']:
+            out.append(('contact/require-tls-sessinit-clear/' + tag, 'require_tls=True but SESS_INIT was sent in the clear'))
+        if req is False and obs['sessinit_tls']:
+            out.append(('contact/forbid-tls-sessinit-secured/' + tag, 'require_tls=False but SESS_INIT was sent under TLS'))
         if both and not row['hs_ok']:
             out.append(('contact/proceeds-after-failed-handshake/' + tag, 'proceeded although the TLS handshake failed'))
     if obs['closed'] and obs['established']:
@@ -271,36 +275,61 @@ def impl_authn_view(obs):
                 established=obs['established'], authn=fields)
 
 
-def run_rows(rows, model_ok):
-    ''' Real code + oracle on every row; model comparison when the model evaluates. '''
-    agree = True
-    first_diff = None
+def py_tls_use_ok(req, this_offers, peer_offers, secured):
+    ''' The property text on the use of TLS by an endpoint that goes on to session negotiation. '''
+    return (secured == bool(this_offers and peer_offers)) and (req is None or secured == req)
+
+
+class Outcome(object):
+    def __init__(self):
+        self.agree = True        # real code == generated model on every row
+        self.first_diff = None
+        self.spec_agree = True   # Coq rendering of the specification == Python oracle's reading, row by row
+        self.spec_diff = None
+        self.model_err = None
+
+    def differ(self, row, impl, model):
+        self.agree = False
+        if self.first_diff is None:
+            self.first_diff = dict(row=row, implementation=impl, model=model)
+
+    def spec_differ(self, row, coq, python):
+        self.spec_agree = False
+        if self.spec_diff is None:
+            self.spec_diff = dict(row=row, coq_spec=coq, python_oracle=python)
+
+
+def run_rows(rows):
+    ''' Real code first (observations), then the generated model and the Coq specification on the same
+    rows (vm_compute), then comparison and oracle. '''
+    res = Outcome()
     contact = [r for r in rows if r['kind'] == 'contact']
     authn = [r for r in rows if r['kind'] == 'authn']
     mids = [r for r in rows if r['kind'] == 'match_id']
-    mod_contact = mod_authn = mod_mid = None
-    model_err = None
-    if model_ok:
-        try:
-            mod_contact = chk.coq_eval('contact', [], [coq_contact(r) for r in contact], 'run_contact', prelude=PRELUDE)
-            mod_authn = chk.coq_eval('authn', [], [coq_authn(r) for r in authn], 'run_authn', prelude=PRELUDE)
-            mod_mid = chk.coq_eval('matchid', [], [
-                '(%s, %s)' % (coq_opt(MATCH_IDS.get(r['ref']), lambda v: '%d' % v, 'N'),
-                              coq_list(['%d' % MATCH_IDS[x] for x in (r['cert'] or [])], 'N')) for r in mids],
-                'run_match', prelude=PRELUDE)
-        except CoqError as err:
-            model_err = str(err)[:600]
-            mod_contact = mod_authn = mod_mid = None
 
-    def differ(row, impl, model):
-        nonlocal agree, first_diff
-        agree = False
-        if first_diff is None:
-            first_diff = dict(row=row, implementation=impl, model=model)
+    obs_contact = [I.run_contact_row(row) for row in contact]
+    obs_authn = [(I.run_authn_row(row, 'e2e'), I.run_authn_row(row, 'direct')) for row in authn]
+    obs_mid = [I.run_match_id(row['ref'], row['cert']) for row in mids]
+
+    def went_on(obs):
+        return bool(obs['sessinit_clear'] or obs['sessinit_tls'] or obs['established'])
+
+    mod_contact = mod_authn = mod_mid = None
+    try:
+        mod_contact = chk.coq_eval('contact', [], [
+            '(%s, %s, %s)' % (coq_contact(row), coq_bool(went_on(obs)), coq_bool(obs['secure']))
+            for (row, obs) in zip(contact, obs_contact)], 'run_contact', prelude=PRELUDE)
+        mod_authn = chk.coq_eval('authn', [], [coq_authn(r) for r in authn], 'run_authn', prelude=PRELUDE)
+        mod_mid = chk.coq_eval('matchid', [], [
+            '(%s, %s)' % (coq_opt(MATCH_IDS.get(r['ref']), lambda v: '%d' % v, 'N'),
+                          coq_list(['%d' % MATCH_IDS[x] for x in (r['cert'] or [])], 'N')) for r in mids],
+            'run_match', prelude=PRELUDE)
+    except CoqError as err:
+        res.model_err = str(err)[:600]
+        mod_contact = mod_authn = mod_mid = None
 
     # ---- contact-header / TLS-use table
-    for (idx, row) in enumerate(contact):
-        obs = I.run_contact_row(row)
+    for (idx, (row, obs)) in enumerate(zip(contact, obs_contact)):
         chk.count('contact.role', row['role'])
         chk.count('contact.require_tls', str(row['require_tls']))
         mid = obs['after_contact']
@@ -309,25 +338,24 @@ def run_rows(rows, model_ok):
         nontrivial = mid['closed'] or mid['secure']
         if mod_contact is not None:
             (attempt, (proceeds, secured, spec_ok)) = mod_contact[idx]   # Coq prints ((a, b), c) as (a, b, c)
-            model = dict(attempt=bool(attempt), proceeds=bool(proceeds), secured=bool(secured), spec_ok=bool(spec_ok))
+            model = dict(attempt=bool(attempt), proceeds=bool(proceeds), secured=bool(secured))
             # the model's Proceed = the endpoint goes on: SESS_INIT is emitted (by the active side at once,
             # by the passive side in reply to the peer's) and, the certificate being fine, the session is established
             if (impl['proceeds'], impl['secured'] if impl['proceeds'] else False) != (model['proceeds'], model['secured']) \
                     or impl['sessinit'] != model['proceeds'] or impl['established'] != model['proceeds'] \
                     or obs['secure_calls'] > 1 or (obs['secure_calls'] == 1 and not model['attempt']) \
                     or (model['proceeds'] and model['secured'] and obs['secure_calls'] != 1):
-                differ(row, dict(impl, secure_calls=obs['secure_calls']), model)
-            if not model['spec_ok']:
-                differ(row, 'tls_use_okb false on a proceeding outcome', model)
+                res.differ(row, dict(impl, secure_calls=obs['secure_calls']), model)
+            py_ok = (not went_on(obs)) or py_tls_use_ok(row['require_tls'], row['tls_enable'], row['peer_can'], obs['secure'])
+            if bool(spec_ok) != py_ok:
+                res.spec_differ(row, dict(tls_use_okb=bool(spec_ok)), dict(tls_use_ok=py_ok, went_on=went_on(obs), secured=obs['secure']))
         chk.case(ident=('contact', json.dumps(row, sort_keys=True)), nontrivial=nontrivial,
                  sample=dict(row=row, observed=impl) if idx in (5, 30) else None)
         for (sig, what) in oracle_contact(row, obs):
             report(sig, what, row)
 
     # ---- authentication table
-    for (idx, row) in enumerate(authn):
-        obs = I.run_authn_row(row, 'e2e')
-        direct = I.run_authn_row(row, 'direct')
+    for (idx, (row, (obs, direct))) in enumerate(zip(authn, obs_authn)):
         chk.count('authn.role', row['role'])
         chk.count('authn.san_count', 'no-extension' if row['san'] is None else len(row['san']))
         view = impl_authn_view(obs)
@@ -335,49 +363,48 @@ def run_rows(rows, model_ok):
         # the two ways of driving the real code must tell the same story
         direct_refused = direct['refused'] == CONTACT_FAILURE
         if direct_refused != view['refuses'] or (direct['refused'] not in (None, CONTACT_FAILURE)):
-            differ(row, dict(e2e=view, direct=direct), 'direct call of merge_session_params() disagrees with the message-driven run')
+            res.differ(row, dict(e2e=view, direct=direct), 'direct call of merge_session_params() disagrees with the message-driven run')
         use_tls = row.get('tls', True)
         # distinct = distinct input of the model (v4/v6 rows with the same abstract identifiers count once);
         # non-trivial = under TLS and the decision leaves the default path (a SAN is presented or a requirement is set)
         nontrivial = bool(use_tls and (row['san'] or row['require_host'] or row['require_node']))
-        abstract_key = json.dumps(abstract_authn(row), sort_keys=True)
+        abstract_key = json.dumps(dict(abstract_authn(row), tls=use_tls), sort_keys=True)
         if mod_authn is not None:
             model = canon_model_authn(mod_authn[idx])
             (failed, _ref) = policy_clauses(row)
             if use_tls:
+                direct_fields = [('matched' if isinstance(direct['params'][k], list) else direct['params'][k])
+                                 for k in ('authn_ipaddrid', 'authn_dnsid', 'authn_nodeid')]
                 if view['refuses'] != model['refuses'] or obs['established'] != (not model['refuses']):
-                    differ(row, view, model)
+                    res.differ(row, view, model)
                 elif obs['established'] and view['authn'] != model['authn']:
-                    differ(row, view, model)
-                elif direct['refused'] is None and [
-                        ('matched' if isinstance(direct['params'][k], list) else direct['params'][k])
-                        for k in ('authn_ipaddrid', 'authn_dnsid', 'authn_nodeid')] != model['authn']:
-                    differ(row, direct, model)
+                    res.differ(row, view, model)
+                elif direct['refused'] is None and direct_fields != model['authn']:
+                    res.differ(row, direct, model)
                 # the Coq rendering of the specification and the Python oracle read the property alike
                 if model['policy_ok'] != (not failed):
-                    differ(row, dict(oracle_failed_clauses=failed), dict(policy_okb=model['policy_ok']))
+                    res.spec_differ(row, dict(policy_okb=model['policy_ok']), dict(failed_clauses=failed))
             else:
                 if not obs['established'] or view['authn'] != ['absent'] * 3:
-                    differ(row, view, 'no TLS: established, nothing authenticated')
+                    res.differ(row, view, 'no TLS: established, nothing authenticated')
         chk.case(ident=('authn', abstract_key), nontrivial=nontrivial,
                  sample=dict(row=row, observed=view) if idx in (7, 333, 801) else None)
         for (sig, what) in oracle_authn(row, obs):
             report(sig, what, row)
 
     # ---- match_id() on its own
-    for (idx, row) in enumerate(mids):
-        got = I.run_match_id(row['ref'], row['cert'])
+    for (idx, (row, got)) in enumerate(zip(mids, obs_mid)):
         chk.count('match_id.result', got)
         if mod_mid is not None:
             want = {0: 'absent', 1: 'matched', 2: 'mismatch'}[mod_mid[idx]]
             if got != want:
-                differ(row, got, want)
+                res.differ(row, got, want)
         # oracle: matched only if the reference is in the certificate
         if got == 'matched' and (row['ref'] is None or row['ref'] not in (row['cert'] or [])):
             report('match_id/false-match', 'match_id(%r, %r) reports a match' % (row['ref'], row['cert']), row)
         chk.case(ident=('match_id', json.dumps(row, sort_keys=True)), nontrivial=bool(row['cert']),
                  sample=dict(row=row, observed=got) if idx == 8 else None)
-    return (agree, first_diff, model_err)
+    return res
 
 
 def runtime_assumptions():
@@ -414,14 +441,15 @@ def main():
             ok = chk.coq_props()
             chk.obligation('replay:obligations', ok, getattr(chk, 'coq_failure', ''))
             chk.finish(rule='replay of a broken-obligation report: the proof obligations are re-checked')
-        ok = chk.coq_props()
-        (agree, diff, err) = run_rows([row], ok)
+        chk.coq_props()
+        res = run_rows([row])
         print('replayed row: %s' % json.dumps(row, sort_keys=True))
         if row['kind'] == 'authn':
             print('observed   : %s' % json.dumps(I.run_authn_row(row, 'e2e'), sort_keys=True))
         elif row['kind'] == 'contact':
             print('observed   : %s' % json.dumps(I.run_contact_row(row), sort_keys=True))
-        chk.obligation('correspondence:replayed-row', agree and err is None, json.dumps(diff, default=repr)[:600] if diff else (err or ''))
+        chk.obligation('correspondence:replayed-row', res.agree and res.model_err is None,
+                       json.dumps(res.first_diff, default=repr)[:600] if res.first_diff else (res.model_err or ''))
         chk.finish(rule='replay of exactly one stored row through the real code, the model and the oracle')
 
     quick = chk.quick()
@@ -438,23 +466,27 @@ def main():
             seen.add(key)
             rows.append(row)
     # the model can be evaluated as long as Gen/TlsPolicy.v and Model/TlsSpec.v compile, even if a proof broke
-    (agree, diff, model_err) = run_rows(rows, True)
+    res = run_rows(rows)
 
     bad = runtime_assumptions()
     chk.obligation('assumptions:translator-runtime-facts', not bad, '; '.join(bad))
     detail = ''
-    if model_err:
-        detail = 'model does not evaluate: ' + model_err
-    elif diff:
-        detail = 'first difference: ' + json.dumps(diff, sort_keys=True, default=repr)[:900]
-    chk.obligation('correspondence:decision-table(real code vs Gen/TlsPolicy.v)', agree and model_err is None, detail)
+    if res.model_err:
+        detail = 'model does not evaluate: ' + res.model_err
+    elif res.first_diff:
+        detail = 'first difference: ' + json.dumps(res.first_diff, sort_keys=True, default=repr)[:900]
+    corr_ok = res.agree and res.model_err is None
+    chk.obligation('correspondence:decision-table(real code vs Gen/TlsPolicy.v)', corr_ok, detail)
+    chk.obligation('spec-agreement:Model/TlsSpec.v(policy_okb, tls_use_okb) vs python oracle on every row',
+                   res.spec_agree and res.model_err is None,
+                   json.dumps(res.spec_diff, sort_keys=True, default=repr)[:900] if res.spec_diff else (res.model_err or ''))
     if tr_ok:
         chk.obligation('translator:tlspolicy', True, '')
     else:
         # fail-closed translator: the last generated model stays in place; the tie is then carried by the
         # exhaustive differential evaluation above (DESIGN 3.1) -- it holds only if every row agreed
         chk.obligation('translator:tlspolicy (failed: %s) -> fallback: exhaustive differential against the last generated model' % tr_err[:300],
-                       agree and model_err is None and props_ok, detail)
+                       corr_ok and props_ok, detail)
 
     chk.coverage['exhaustive'] = True
     chk.coverage['refuted_or_partial_theorems'] = {
